@@ -119,6 +119,12 @@ func (c *P2Claims) SetCertificationReference(v string) error {
 }
 
 func (c *P2Claims) SetSoftwareComponents(scs []ISwComponent) error {
+	// unlike profile 1, there is no no-sw-measurements flag that a nil
+	// slice could stand for
+	if scs == nil {
+		return fmt.Errorf("%w: there MUST be at least one entry", ErrWrongSyntax)
+	}
+
 	if c.SwComponents == nil {
 		c.SwComponents = &SwComponents[*SwComponent]{}
 	}
